@@ -93,7 +93,7 @@ def gen_C01(rng, tier):
         # mixed operands
         for op in ["add", "sub", "mul", "div", "addas", "subas", "mulas", "divas"]:
             for _ in range(2):
-                t = rng.randint(-10 ** 13, 10 ** 13)
+                t = rng.choice([rng.randint(-10 ** 13, 10 ** 13)] * 4 + [0, 1, -1])      # Time(0) as a divisor: the result is ±inf / NaN, as for the converted operand
                 # integers beyond 2^24 with low bits set are not f32 values: the operator must round them FIRST (`Quantity::from`)
                 d = rng.choice([rng.randint(-10 ** 6, 10 ** 6), strat_i64(rng), rng.choice([-1, 1]) * (2 ** rng.randint(24, 40) + rng.randint(1, 7))])
                 L.append("q %s %s T:%d" % (op, q(rand_f(rng), m, s), t))
@@ -399,6 +399,23 @@ def gen_C14(rng, tier):
             L.append("q c2q %s" % a)
     for (m, sx) in GRID:
         L.append("q q2c %s" % q(rand_f(rng), m, sx))
+        for z in ("00000000", "80000000"):          # a ZERO velocity / acceleration quantity is still a velocity / acceleration command
+            L.append("q q2c Q:%s:%d,%d" % (z, m, sx))
+    # structured kinematics: exactly representable (dyadic) states and whole / dyadic time steps chosen so that intermediate quantities
+    # vanish or tie — zero NET displacement with non-zero velocities (a*dt = -2v), velocity reaching exactly zero (a*dt = -v), a = 0,
+    # v = 0, dt = 0 — where a "nothing changed, skip the write" shortcut keyed on ONE of the three results goes wrong
+    for _ in range(n_of(tier, 400, 3000)):
+        dts = rng.choice([1, 2, 4, 8, 3, 5]) * rng.choice([10 ** 9, 10 ** 9, 5 * 10 ** 8, 25 * 10 ** 7]) * rng.choice([1, 1, -1])
+        dt = dts / 1e9
+        v = rng.choice([-1, 1]) * rng.randint(1, 64) * rng.choice([1.0, 0.5, 0.25, 2.0])
+        kind = rng.random()
+        if kind < 0.4: a = -2.0 * v / dt
+        elif kind < 0.7: a = -v / dt
+        elif kind < 0.8: a = 0.0
+        elif kind < 0.9: a, v = rng.choice([-3.0, 1.5]), 0.0
+        else: a = rng.choice([-2.0, 0.75])
+        x = rng.choice([0.0, 10.0, -7.5, float(rng.randint(-100, 100))])
+        L.append("k supd %s/%s/%s %d" % (f2h(x), f2h(v), f2h(a), dts))
     for _ in range(n_of(tier, 300, 2000)):
         L.append("k pidk %s" % " ".join(rand_f(rng) for _ in range(6)))
         L.append("k pidk3 %s %s %s" % (" ".join(rand_f(rng) for _ in range(9)), rng.choice("PVA"), " ".join(rand_f(rng) for _ in range(3))))
